@@ -232,7 +232,7 @@ def main(run):
     nw = 4 if q else 16
     for k in range(nw):
         jobs.append({"cfg": "asan64", "unit": "c20:unit_random",
-                     "params": {"chunk": k, "histories": 60 if q else 600, "length": 400}})
+                     "params": {"chunk": k, "histories": 60 if q else 6000, "length": 400}})
     if not q:
         jobs.append({"cfg": "asan32", "unit": "c20:unit_closure"})
         jobs.append({"cfg": "rel64", "unit": "c20:unit_closure"})
